@@ -118,6 +118,19 @@ fn materialize(t: &Path, tree: &Value, relative_links: bool, lname: &str) {
     for (p, m) in modes {
         fs::set_permissions(&p, fs::Permissions::from_mode(m)).unwrap();
     }
+    // the model's one SBOM file stands for the layer's SBOM files in any of the three formats: which
+    // of them exist rotates (cdx only / spdx only / cdx + syft / all three)
+    let cdx = t.join(format!("L/{lname}.sbom.cdx.json"));
+    if cdx.exists() {
+        let variant = tree.to_string().len() % 4;
+        let (spdx, syft) = (t.join(format!("L/{lname}.sbom.spdx.json")), t.join(format!("L/{lname}.sbom.syft.json")));
+        match variant {
+            1 => { fs::rename(&cdx, &spdx).unwrap(); }
+            2 => { fs::write(&syft, "{}").unwrap(); }
+            3 => { fs::write(&spdx, "{}").unwrap(); fs::write(&syft, "{}").unwrap(); }
+            _ => {}
+        }
+    }
 }
 
 fn outside(t: &Path, lname: &str) -> fsnap::Snap {
@@ -161,8 +174,10 @@ fn run(v: &Value, scratch: &Path) -> Vec<String> {
                 if !ok_dir || !empty {
                     problems.push(format!("{entry}[{lname}]: after deletion the layer path is not a fresh empty directory (is_dir={ok_dir}, empty={empty})"));
                 }
-                if t.join(format!("L/{lname}.sbom.cdx.json")).exists() {
-                    problems.push(format!("{entry}[{lname}]: the layer's SBOM file survived the deletion"));
+                for ext in ["cdx", "spdx", "syft"] {
+                    if t.join(format!("L/{lname}.sbom.{ext}.json")).exists() {
+                        problems.push(format!("{entry}[{lname}]: the layer's {ext} SBOM file survived the deletion"));
+                    }
                 }
                 if fs::read_to_string(t.join(format!("L/{lname}.toml"))).is_ok_and(|s| s.contains("kept")) {
                     problems.push(format!("{entry}[{lname}]: the old content metadata survived the deletion"));
